@@ -108,7 +108,6 @@ pub(crate) mod verif_longterm {
             };
             vassert!(ok, "VERIF:C10:signed-bytes-are-this-versions-delegation-context-then-DELE-only");
             vassert!(dalek::eq64(&arr::<64>(sig), &rec.sig), "VERIF:C10:CERT-SIG-is-that-signature");
-            vassert!(crate::sign::verif_sign::signer_buf_len(&ltk.signer) == 0, "VERIF:C10:signer-buffer-empty-after-certificate");
             core::mem::forget(cert);
             i += 1;
         }
